@@ -11,6 +11,7 @@ package nodeslo
 
 import (
 	corev1 "k8s.io/api/core/v1"
+	"k8s.io/apimachinery/pkg/api/resource"
 	metav1 "k8s.io/apimachinery/pkg/apis/meta/v1"
 	"k8s.io/client-go/tools/record"
 
@@ -100,6 +101,19 @@ func zzvStr[S any](name string, f func(s *S) *string, vals []string) zzvSlot[S] 
 	}
 }
 
+// a resource.Quantity held by value with omitempty: zero is "not set"
+func zzvQty[S any](name string, f func(s *S) *resource.Quantity) zzvSlot[S] {
+	return zzvSlot[S]{
+		name: name,
+		mk:   func(tag string) int64 { return zzverif.Int64(tag, 1, zzvB) },
+		set:  func(s *S, v int64) { *f(s) = *resource.NewQuantity(v, resource.DecimalSI) },
+		get: func(s *S) (bool, int64) {
+			q := f(s)
+			return !q.IsZero(), q.Value()
+		},
+	}
+}
+
 type zzvTS = slov1alpha1.ResourceThresholdStrategy
 
 func zzvThresholdSlots() []zzvSlot[zzvTS] {
@@ -135,6 +149,8 @@ func zzvSystemSlots() []zzvSlot[zzvSS] {
 		zzvI64("memcgReapBackGround", func(s *zzvSS) **int64 { return &s.MemcgReapBackGround }),
 		zzvI64("schedGroupIdentityEnabled", func(s *zzvSS) **int64 { return &s.SchedGroupIdentityEnabled }),
 		zzvI64("schedIdleSaverWmark", func(s *zzvSS) **int64 { return &s.SchedIdleSaverWmark }),
+		zzvQty("totalNetworkBandwidth", func(s *zzvSS) *resource.Quantity { return &s.TotalNetworkBandwidth }),
+		zzvI64("pageCacheLimitEnabled", func(s *zzvSS) **int64 { return &s.PageCacheLimitEnabled }),
 	}
 }
 
